@@ -1305,7 +1305,12 @@ func (e *Exec) deliverOnR0(p *pendingTx, blk *Block, rec *BlockRec) {
 	e.Trace.Ev("tx=%d h=%d %s -> code=%d/%s gas=%d pred[st=%s sig=%v fee=%v hd=%s %s]", p.ID, blk.Height, desc, res.Code, res.Codespace, res.GasUsed,
 		pred.Stateless, pred.SigOK, pred.FeeOK, pred.Handler, pred.HandlerWhy)
 
-	if res.Code == panicCode && res.Codespace == "undefined" {
+	if res.Code == panicCode && res.Codespace == "undefined" && !pred.HasCustom {
+		// a panic recovered by baseapp while executing SDK messages only (e.g. a legacy parameter-change proposal for a
+		// subspace without key table): C17 is about the custom modules; replicas must still agree on the answer
+		e.Stats.Inc("probe.sdk_message_panic_recovered")
+	}
+	if res.Code == panicCode && res.Codespace == "undefined" && pred.HasCustom {
 		e.viol("C17", "panic.delivertx", desc, "DeliverTx of %s was answered with a recovered panic: %s", desc, trunc(res.Log, 400))
 	}
 	if res.Codespace == "sdk" && res.Code == 11 {
@@ -1548,6 +1553,9 @@ func (e *Exec) judgeTx(p *pendingTx, bt *BuiltTx, pred *prediction, accepted boo
 			}
 			if sec == "pnft/" && pred.AltDenom != "" {
 				prop = "C12"
+			}
+			if prop == "C03" && strings.Contains(d[0], "want tomb") {
+				prop = "C05" // a deactivation that did not leave the tombstone the statements require
 			}
 			e.viol(prop, "state.diverges_from_model."+strings.TrimSuffix(sec, "/"), entityOf(first), "after tx %s the %s state differs from the model: %s", desc, sec, strings.Join(d, " ; "))
 			e.resync(r0.DeliverStores())
